@@ -358,6 +358,27 @@ func c17RunPath(a *ast.Schema, want map[string]any, path string, legs ...c17leg)
 			detail["want"] = d.Want
 			return fail("resolved-differs", d.Class, "")
 		}
+		// the same document parsed into a Schema value that already held, and had resolved,
+		// another schema: the receiver's earlier life must not show in the result
+		used := c17UsedSchema()
+		if uerr, usite, _ := c17Call(func() error { return leg.unmarshal(used, b1) }); uerr == nil && usite == "" {
+			urs, uerr, usite, _ := c17Resolve(used)
+			if uerr != nil || usite != "" {
+				detail["error"] = fmt.Sprint(uerr, usite)
+				return fail("resolve-error-after-roundtrip", leg.name+" into a used Schema value", fmt.Sprint(uerr))
+			}
+			if d := c17DiffTrees(c17Canon(urs), want, nil, nil); d != nil {
+				d.Class = c17ClassOf(d)
+				detail["difference_at"] = strings.Join(d.Path, " / ")
+				detail["got"] = d.Got
+				detail["want"] = d.Want
+				detail["receiver"] = "a Schema value that had already parsed and resolved another schema"
+				return fail("resolved-differs", "parsed into a used Schema value: "+d.Class, "")
+			}
+		} else {
+			detail["error"] = fmt.Sprint(uerr, usite)
+			return fail("reparse-error", leg.name+" into a used Schema value", fmt.Sprint(uerr))
+		}
 		err, site, pm = c17Call(func() (e error) { b2, e = leg.marshal(&next); return })
 		if site != "" {
 			detail["panic"] = pm
